@@ -16,7 +16,7 @@ CLAIMED = {
 		ref='DESIGN.md §4 C01, §9'),
 	'C04': dict(
 		level='proof',
-		text='Proved for all inputs, at the level of the session tables: Entrypoints.load/unload, Modules.load (with its recursive loading of libraries and imports) / unload, NodeResolver.resolve/clear, Memo.get, Memoize.get and the SymbolDB operations are maps with exact frames - a look-up of something present returns the stored object and changes nothing, loading adds only the requested entries and never replaces a loaded module, entry point, node instance or memoised value, unloading removes exactly the requested entry; under a memo key the first factory decides the value. The statement itself (every transpile inside any history equals the fresh-process result, for every hash seed) is a labelled bounded twin on the real pipeline.',
+		text='Proved for all inputs, at the level of the session tables: Entrypoints.load/unload, Modules.load (with its recursive loading of libraries and imports) / unload, NodeResolver.resolve/clear, Memo.get, Memoize.get and the SymbolDB operations (incl. unload) are maps with exact frames - a look-up of something present returns the stored object and changes nothing, loading adds only the requested entries and never replaces a loaded module, entry point, node instance or memoised value, unloading removes exactly the requested entry; under a memo key the first factory decides the value. The statement itself (every transpile inside any history of load / transpile / unload operations or interactive submissions equals the fresh-process result, for every hash seed and target order) is a labelled bounded twin on the real pipeline.',
 		note='loaders, constructors, match_feature, factories assumed to touch the tables only through the contracted operations; determinism between the tables (inference, templates, iteration orders) bounded only',
 		ref='DESIGN.md §4 C04, §9'),
 	'C05': dict(
@@ -66,7 +66,7 @@ CLAIMED = {
 		ref='DESIGN.md §4 C13'),
 	'C14': dict(
 		level='proof',
-		text='Proved for all tables whose type-reference graph is acyclic: SymbolDB._order_keys_recursive / _order_keys list the keys of a module so that every key stands after every key its row refers to (its type and its type arguments at any depth, within the module) and every key of the module is listed - the export side of "import never refers to a key not yet present"; __getitem__/__setitem__/completed/on_complete/import_json are proved against the table view with frames (imported keys present, their module completed, existing symbols and marks retained). Reflections are opaque identities with axiomatised reachability. The rebuild of nested attributes on import and the symbol-by-symbol comparison are a labelled bounded twin over real and generated modules.',
+		text='Proved for all tables whose type-reference graph is acyclic: SymbolDB._order_keys_recursive / _order_keys list the keys of a module so that every key stands after every key its row refers to (its type and its type arguments at any depth, within the module) and every key of the module is listed - the export side of "import never refers to a key not yet present"; __getitem__/__setitem__/completed/on_complete/import_json/unload are proved against the table view with frames (imported keys present, their module completed, existing symbols and marks retained; unload removes exactly the keys and the mark of the module, raises nothing also for a half-loaded module). Reflections are opaque identities with axiomatised reachability. The rebuild of nested attributes on import and the symbol-by-symbol comparison are a labelled bounded twin over real and generated modules.',
 		note='reachability through attrs axiomatised by its unfolding plus a height function; dict iteration as an abstract list; deserialize assumed; acyclic key graph / type-entry invariants are preconditions validated natively by the twin',
 		ref='DESIGN.md §4 C14, §9'),
 	'C15': dict(
